@@ -1171,6 +1171,12 @@ func (e *Enc) encodeBlock(b *ssa.BasicBlock) {
 		for _, p := range phis {
 			e.havocVal(p)
 		}
+		// a counter that starts at 0 and is only ever incremented by 1 is never negative
+		for _, p := range phis {
+			if isUpCounter(li, p) {
+				e.fact("(>= " + e.vals[p] + " 0)")
+			}
+		}
 		// range-over-slice index: -1 <= idx and idx+1 <= len (a property of the SSA lowering)
 		for _, p := range phis {
 			if p.Comment != "rangeindex" {
@@ -1303,7 +1309,40 @@ func (e *Enc) loopResolver(li *loopInfo, st0 *State, phiVal func(*ssa.Phi) strin
 					return TV{Term: "(+ " + phiVal(p) + " 1)", Sort: "Int", T: types.Typ[types.Int]}, true
 				}
 			}
-			panic(fmt.Errorf("contract structure lost: loop %d of %s is not a range over a slice or array any more (#iter has no meaning)", li.ordinal, e.key))
+			// a counted loop `for i := 0; ...; i++`: the number of completed iterations is i
+			for _, in := range li.head.Instrs {
+				p, ok := in.(*ssa.Phi)
+				if !ok {
+					continue
+				}
+				if b, ok := p.Type().Underlying().(*types.Basic); !ok || b.Info()&types.IsInteger == 0 {
+					continue
+				}
+				zeroIn, stepBack := false, false
+				for i, ed := range p.Edges {
+					pred := li.head.Preds[i]
+					if li.body[pred] {
+						if add, ok := ed.(*ssa.BinOp); ok && add.Op == token.ADD && add.X == ssa.Value(p) {
+							if c, ok := add.Y.(*ssa.Const); ok && c.Value != nil && c.Value.ExactString() == "1" {
+								stepBack = true
+								continue
+							}
+						}
+						stepBack = false
+						break
+					}
+					if c, ok := ed.(*ssa.Const); ok && c.Value != nil && c.Value.ExactString() == "0" {
+						zeroIn = true
+					} else {
+						zeroIn = false
+						break
+					}
+				}
+				if zeroIn && stepBack {
+					return TV{Term: phiVal(p), Sort: "Int", T: types.Typ[types.Int]}, true
+				}
+			}
+			panic(fmt.Errorf("contract structure lost: loop %d of %s is not a range over a slice or array (nor a loop counting up from 0) any more (#iter has no meaning)", li.ordinal, e.key))
 		}
 		if name == "#range" {
 			// the slice ranged over by a range-over-slice loop
@@ -2402,4 +2441,37 @@ func (e *Enc) inlineClosure(fn *ssa.Function, args []ssa.Value, bindings []ssa.V
 		results = append(results, term)
 	}
 	return results, true
+}
+
+
+// isUpCounter: phi at the head of loop li whose value is the constant 0 on every entry edge and
+// phi+1 on every back edge.
+func isUpCounter(li *loopInfo, p *ssa.Phi) bool {
+	if b, ok := p.Type().Underlying().(*types.Basic); !ok || b.Info()&types.IsInteger == 0 {
+		return false
+	}
+	zeroIn, stepBack := false, false
+	for i, ed := range p.Edges {
+		if i >= len(li.head.Preds) {
+			return false
+		}
+		if li.body[li.head.Preds[i]] {
+			add, ok := ed.(*ssa.BinOp)
+			if !ok || add.Op != token.ADD || add.X != ssa.Value(p) {
+				return false
+			}
+			c, ok := add.Y.(*ssa.Const)
+			if !ok || c.Value == nil || c.Value.ExactString() != "1" {
+				return false
+			}
+			stepBack = true
+			continue
+		}
+		c, ok := ed.(*ssa.Const)
+		if !ok || c.Value == nil || c.Value.ExactString() != "0" {
+			return false
+		}
+		zeroIn = true
+	}
+	return zeroIn && stepBack
 }
